@@ -437,8 +437,8 @@ fn run_transport(
                         // make sure space is freed up as much as possible.
                         let done = drive_connection(conn, wbuf, msgs);
                         if done {
+                            // The client count is adjusted once, when the client is removed below.
                             clients_to_remove.push(*token);
-                            state.decrement_clients();
                             continue;
                         }
 
@@ -460,7 +460,6 @@ fn run_transport(
                         let done = drive_connection(conn, wbuf, msgs);
                         if done {
                             clients_to_remove.push(*token);
-                            state.decrement_clients();
                         }
                     }
 
